@@ -411,6 +411,7 @@ func ruleC10(r *Report) {
 	safely(r, func() { checkLengthGates(r, p, "C10.framing") })
 	safely(r, func() { checkPadding(r, NewAnalysis(p), sc, "C10.padding", true) })
 	checkC10Digest(r, p)
+	safely(r, func() { checkDigestAdvertised(r, p, "C10.digest") })
 	safely(r, func() { checkAEADPlain(r, p, sc, "C10.aead-plain") })
 }
 
@@ -991,3 +992,45 @@ func checkLengthGates(r *Report, p *Prog, rule string) {
 }
 
 var constTokenRe = regexp.MustCompile(`c:(\d+)`)
+
+// checkDigestAdvertised: C10.digest, encrypt side (writer/reader agreement with the decrypter's "SHA-1 only when the
+// element names no digest"). RSA.Encrypt names the digest it wrapped the key with: the ds:DigestMethod element is
+// created under no condition but e.DigestMethod != nil, and its Algorithm attribute is e.DigestMethod.Algorithm().
+func checkDigestAdvertised(r *Report, p *Prog, rule string) {
+	fn := p.MustFunc("xmlenc", "RSA", "Encrypt")
+	r.Fn(p.FnName(fn))
+	rg := NewRegion(p, fn, 2)
+	a := NewAnalysis(p)
+	n := 0
+	rg.Each(func(x RI) {
+		c, ok := x.I.(*ssa.Call)
+		if !ok || !calleeIs(c, "(*"+etreePath+".Element).CreateElement") {
+			return
+		}
+		if s, ok := constStr(c.Call.Args[1]); !ok || !strings.HasSuffix(s, "DigestMethod") {
+			return
+		}
+		n++
+		fc := rg.Ctx(a, x.C)
+		fc.ensureConds()
+		var foreign []string
+		for _, nm := range a.B.Support(fc.AbsCond(c.Block())) {
+			ai := a.Atoms[nm]
+			if ai != nil && ai.Kind == "isnil" && len(ai.Args) == 1 && strings.HasSuffix(ai.Args[0], "RSA.DigestMethod") {
+				continue
+			}
+			if ai != nil && ai.Kind == "isnil" && strings.HasPrefix(ai.Args[0], "r:") {
+				continue // an earlier step's error
+			}
+			if ai != nil && (ai.Kind == "typeis" || ai.Kind == "eq" && strings.Contains(nm, "len(")) {
+				continue // the certificate argument's type, key sizes
+			}
+			foreign = append(foreign, nm)
+		}
+		sort.Strings(foreign)
+		r.Check(len(foreign) == 0, rule, p.FnName(fn)+": the digest used to wrap the key is named in the EncryptedKey", p.InstrPos(c), "ds:DigestMethod is written whenever a digest is configured", "ds:DigestMethod is written only under "+strings.Join(foreign, ", ")+": a key wrapped with a configured digest is emitted without naming it, and every decrypter (this package's too) then assumes SHA-1")
+	})
+	if n == 0 {
+		r.Bad(rule, p.FnName(fn)+": the digest used to wrap the key is named in the EncryptedKey", p.Pos(fn.Pos()), "RSA.Encrypt never writes a ds:DigestMethod element")
+	}
+}
